@@ -17,11 +17,85 @@ CLAUSES = (
     'all QUAL_FAM_* constants; _families_all_to_all joins members with & iff '
     'all-semantics and | otherwise, iterates every member of the family, and '
     'builds its substitution regex only from escaped fragments; RHS family '
-    'nodes set triggers and output optionality for every member. Not decided: '
+    'nodes set triggers and output optionality for every member; the member '
+    'table given to the parser lists every task descendant of every family '
+    'but root in the full C3 linearisation. Not decided: '
     'the expanded expression text for arbitrary graph strings.')
 
 
+def _family_map_rules(c):
+    """The member table handed to the graph parser lists, for every family
+    but root, *all* its task descendants in the full (C3-linearised, multiple
+    inheritance) ancestry -- a task that belongs to a family only through a
+    secondary parent is a member."""
+    from rules._shared import resolved
+    R = 'C15.family-map'
+    lg = c.func('config', 'WorkflowConfig._load_graph')
+    gp = [n for n in c.calls(lg, 'GraphParser')]
+    c.floor(R, f'{lg.fq} :: GraphParser(..)', len(gp), 1)
+    for n in gp:
+        arg = n.args[0] if n.args else None
+        for k in n.keywords:
+            if k.arg == 'family_map':
+                arg = k.value
+        v = resolved(c, lg, arg, n) if arg is not None else None
+        ok = isinstance(v, ast.DictComp) and len(v.generators) == 1
+        c.ob(R, c.key(n, lg)[:90] + ' member table is a dict comprehension',
+             ok, c.where(n, lg), norm(v)[:120] if v is not None else '')
+        if not ok:
+            continue
+        g = v.generators[0]
+        c.ob(R, c.key(n, lg)[:90] + " over self.runtime['descendants']",
+             norm(g.iter) == "self.runtime['descendants'].items()",
+             c.where(n, lg), norm(g.iter) + ' — members reached only '
+             'through a secondary parent are dropped' if norm(g.iter) !=
+             "self.runtime['descendants'].items()" else '')
+        fam, tasks = (norm(e) for e in g.target.elts) if isinstance(
+            g.target, ast.Tuple) and len(g.target.elts) == 2 else ('', '')
+        c.ob(R, c.key(n, lg)[:90] + ' every family but root',
+             [norm(i) for i in g.ifs] in ([f"{fam} != 'root'"], []),
+             c.where(n, lg), str([norm(i) for i in g.ifs]))
+        c.ob(R, c.key(n, lg)[:90] + ' keyed by the family', norm(v.key) == fam
+             and fam != '', c.where(n, lg), norm(v.key))
+        val = v.value
+        okv = isinstance(val, ast.ListComp) and len(val.generators) == 1 and \
+            norm(val.generators[0].iter) in (tasks, f'sorted({tasks})') and \
+            norm(val.elt) == norm(val.generators[0].target)
+        c.ob(R, c.key(n, lg)[:90] + ' members from all its descendants', okv,
+             c.where(n, lg), norm(val)[:120])
+        if okv:
+            t = norm(val.generators[0].target)
+            want = {f"{t} in self.runtime['parents']",
+                    f"{t} not in self.runtime['descendants']"}
+            got = set()
+            for i in val.generators[0].ifs:
+                parts = i.values if isinstance(i, ast.BoolOp) and isinstance(
+                    i.op, ast.And) else [i]
+                got |= {norm(p) for p in parts}
+            c.ob(R, c.key(n, lg)[:90] + ' only sub-families are left out',
+                 got == want, c.where(n, lg), str(sorted(got)))
+    # the descendants table is filled from the full linearisation
+    fills = c.find(None, "self.runtime['descendants'].setdefault(_p, set())"
+                   '.add(_n)')
+    c.floor(R, "runtime['descendants'] fill", len(fills), 1)
+    for n in fills:
+        f = c.owner(n)
+        lp = n
+        while id(lp) in c.idx.parent and not isinstance(lp, ast.For):
+            lp = c.idx.parent[id(lp)]
+        src = resolved(c, f, lp.iter.value, lp) if isinstance(
+            lp, ast.For) and isinstance(lp.iter, ast.Subscript) else (
+            lp.iter if isinstance(lp, ast.For) else None)
+        txt = norm(src) if src is not None else ''
+        ok = txt.startswith("self.runtime['linearized ancestors'][") and \
+            isinstance(lp.iter, ast.Subscript) and norm(lp.iter.slice) == '1:'
+        c.ob(R, c.key(n, f)[:90] + ' for every ancestor in the C3 '
+             'linearisation (but the namespace itself)', ok, c.where(n, f),
+             f'{txt}[{norm(lp.iter.slice) if isinstance(lp.iter, ast.Subscript) else ""}]')
+
+
 def check(c):
+    _family_map_rules(c)
     K = c.K
     tq = c.idx.module('task_qualifiers')
     alt = K.name(tq, 'ALT_QUALIFIERS')
@@ -213,6 +287,16 @@ def check(c):
 
 
 VARIANTS = [
+    ('members-first-parent-only', 'cylc/flow/config.py',
+     "            for family, tasks in self.runtime['descendants'].items()",
+     "            for family, tasks in self.get_first_parent_descendants().items()",
+     'C15.family-map'),
+    ('descendants-from-first-parents', 'cylc/flow/config.py',
+     """            for p in ancestors[1:]:
+                self.runtime['descendants'].setdefault(p, set()).add(name)""",
+     """            for p in ancestors[1:2]:
+                self.runtime['descendants'].setdefault(p, set()).add(name)""",
+     'C15.family-map'),
     ('any-uses-and', 'cylc/flow/graph_parser.py',
      "                    that = '(%s)' % '|'.join(m_expr)",
      "                    that = '(%s)' % '&'.join(m_expr)", 'C15.joiner'),
